@@ -54,12 +54,29 @@ def main():
     if a.verbose:
         for r in results:
             print(f"  {r['verdict']:9s} {r['wall_s']:6.2f}s {r['key']}" + ("" if r["verdict"] == core.PROVED else f"   {str(r.get('detail'))[:300]}"))
+    st_fail = []
+    if a.tier == "thorough" and not a.only and not os.environ.get("GTSA_SELFTEST"):
+        from gtsa import selftest
+        st = selftest.selftest(prop, jobs=max(2, a.jobs // 2))
+        os.environ["GTSA_SELFTEST_RESULT"] = json.dumps(dict(
+            rule="single-site edits of /repo in scratch copies: firing edits must be refuted naming the construct, behaviour-preserving edits must stay proved",
+            fired=st["fired"], silent_ok=st["silent_ok"], missed=st["missed"], alarmed=st["alarmed"], stale=st["stale"], notes=st["details"]))
+        for k in ("missed", "alarmed", "stale"):
+            for mid in st[k]:
+                st_fail.append(f"SELFTEST-FAILED property={prop} mutant={mid} ({k}): {st['details'].get(mid, '')[:300]}")
+        print(f"[{prop}/selftest] firing edits detected {len(st['fired'])}/{len(st['fired']) + len(st['missed'])}, "
+              f"behaviour-preserving edits silent {len(st['silent_ok'])}/{len(st['silent_ok']) + len(st['alarmed'])}, stale {len(st['stale'])}")
     floors = getattr(mod, "FLOORS", {}) if not a.only else {}
     if hasattr(mod, "floors"):
         floors = mod.floors(a.tier) if not a.only else {}
-    return core.finish(prop, a.tier, obs, results, getattr(mod, "LEVEL", "other"), floors, t0,
-                       extra_cov=getattr(mod, "extra_coverage", lambda t: None)(a.tier),
-                       assumptions=getattr(mod, "ASSUMPTIONS", None), explanation=getattr(mod, "EXPLANATION", ""))
+    rc = core.finish(prop, a.tier, obs, results, getattr(mod, "LEVEL", "other"), floors, t0,
+                     extra_cov=getattr(mod, "extra_coverage", lambda t: None)(a.tier),
+                     assumptions=getattr(mod, "ASSUMPTIONS", None), explanation=getattr(mod, "EXPLANATION", ""))
+    for line in st_fail:
+        print(line)
+    if st_fail and rc == 0:
+        rc = 2
+    return rc
 
 
 if __name__ == "__main__":
